@@ -30,11 +30,23 @@ RFC keys  `genKeys_eq_rfc` (the model's `key_update` chain from the RFC's genera
           `hello_establishes(_rfc)`: the `set_tls_decryptors` call triggered by the last hello message establishes `Est`
           with exactly the RFC keys (adapter soundness `C02Pipeline.after_tls_hp_exact` included).
 Partial   `quic_connection_exact_partial`: all hypotheses in RFC terms except `Est` of the post-handshake state.
-NOT proved: `quic_handshake_establishes` (that the Handshake-level packets after the last `set_tls_decryptors` —
-          Certificate … Finished, ACKs — preserve `Est`, and the walk from `new` to that call): `C02Session.
-          handshake_levels_exact` needs `TlsStable`, a for-all-parser-states hypothesis the concrete `QuicTlsSession` does not
-          satisfy (same non-fit as `TlsQuiet`, `C02Pipeline.tls_quiet_rtt1_counterexample`); it has to be re-proved with
-          hypotheses local to the history, as `step_one_rtt_nc` does here for the 1-RTT phase.
+Handshake `quic_handshake_establishes`, `quic_connection_exact` (= handshake, then the 1-RTT theorem; `hprev` discharged).
+          Spec: `Spec/QuicConnection.lean` (`DgH`: datagrams of coalesced Initial / Handshake packets, `longOf`, `LongShape`),
+          `HsPkOk` / `HsDgOk` / `HsDgs` here (they name the keys of each level). Exactness of the Initial / Handshake levels is
+          re-proved with hypotheses LOCAL to the history instead of `C02Session.TlsStable` (false for the concrete parser):
+            `step_long_eq`    any `Params`: an emitted long-header packet's `decrypt_packet` IS `handle_frame` over its frames;
+            `afterTls_hs`     `set_tls_decryptors` with the connection's key-log lines: never raises, idempotent — same suite
+                              ⇒ the same RFC keys (`Keyed`), whatever was installed before (ClientHello: first offered suite);
+            `PTrace`          THE local hypothesis: on this history's CRYPTO inputs the concrete `QuicTlsSession` never raises,
+                              and whenever it leaves `new_data` set the client random is the connection's and the suite the
+                              selected one (except after a client Initial: first offered suite) — what `C02Hello.
+                              client_hello_parsed / server_hello_parsed / encrypted_extensions_parsed` and `C02Crypto.
+                              crypto_any_order_partial` say about conformant hellos; NOT yet derived from them here;
+            `hs_packet_step`, `hs_turn`, `hs_loop`, `hs_feed_step`, `hs_feed_rest`: packet, coalescing loop, datagram, history.
+          Further hypotheses: the key-log lines of this client random at EVERY handshake `handle_packet` call (not only from
+          the ServerHello on: a ClientHello processed without them makes `dev_quic_keys` raise inside `handle_crypto_frame`,
+          `new_data` stays set and the rest of that packet's frames is skipped — not modelled in the proof); Handshake packets
+          only after a server CRYPTO frame completed a hello (`HsPkOk.keys`); no 0-RTT, no Retry.
 CRYPTO in 1-RTT: excluded (`DgOk.noCrypto`). Without the restriction the statement is FALSE for the code as it is: a 1-RTT
           CRYPTO frame carrying an EncryptedExtensions- or ServerHello-typed message makes `set_tls_decryptors` run again
           and resets the Application generations (replayed on the real tool: data after a key update is lost).
@@ -1003,4 +1015,1094 @@ example : Est H Pc klx sel .v1 k0 hpC hpS false (afterTls (params H Pc klx) sHel
     (by decide) keylogHas rfl ⟨rfl, rfl, rfl, rfl⟩).2.1
 
 end Ex
+/-! ## the handshake -/
+
+section LongStep
+variable {σ : Type} (P : Params σ)
+
+/-- `handle_quic_packet` after `decrypt_packet` for an Initial packet (CID learning), nothing for the other levels -/
+def postLevel (lv : Level) (s : St σ) (p : Pkt) : St σ := if lv = .initial then learnCids s p else s
+
+/-- One Initial / Handshake / 0-RTT packet of a conformant sender whose level's decryptor `d` is installed, for ANY
+    parameters: `decrypt_packet` + the bookkeeping of `handle_quic_packet` IS `handle_frame` over the sender's frames
+    (then the CID learning of an Initial). Everything that depends on the TLS parser is inside `handleFrames`. -/
+theorem step_long_eq (L : SealLaws P.prims) (x : SPkt) (d : Dec) (k : DirKeys) (s : St σ)
+    (hne : x.level ≠ .oneRtt) (hdec : longDecryptor s x.level.ptype = .ok (some d))
+    (hdir : (if x.srv then d.server else some d.client) = some k)
+    (hk : AeadOk d.alg k.key.length k.iv.length 16) (hiv : 8 ≤ k.iv.length)
+    (hpn : PnLenOk (pnLargest s x.srv (spaceOf x.level)) x.pn x.pnLen) (hwf : WellFormedSeq x.frames) :
+    let p := emit L.aeadSeal d.alg k x
+    let r := handleFrames P (pnStore s x.srv (spaceOf x.level) (max (pnLargest s x.srv (spaceOf x.level)) x.pn)) p
+      ((normalize x.frames).map QFrame.toParsed)
+    stepPkt P s p = { st := postLevel x.level r.1 p, caught := r.2, escaped := none } := by
+  intro p r
+  have hh : p.htype = .long := by simp [p, emit, hne]
+  have ht : p.ptype = x.level.ptype := by simp [p, emit, hne]
+  have hsrv : p.isServer = x.srv := by simp [p, emit, hne]
+  have hpnb : p.pn = some (pnBytes x.pnLen x.pn) := by simp [p, emit, hne]
+  have hpl : p.payload = some (L.aeadSeal d.alg k.key (nonce k.iv x.pn) (header x) 16 (encodeAll x.frames)) := by
+    simp [p, emit, hne, protectedPayload]
+  have haad : assocData p = .ok (header x) := assocData_emit _ _ _ _
+  have hsp : p.ptype.space = some (spaceOf x.level) := by
+    rw [ht]; cases hl : x.level <;> simp_all [Level.ptype, PType.space, spaceOf]
+  have hattr : hasPnAttr p = true := by
+    unfold hasPnAttr; rw [hh, ht]; cases hl : x.level <;> simp_all [Level.ptype]
+  have hnr : p.ptype ≠ .retry := by rw [ht]; cases hl : x.level <;> simp [Level.ptype]
+  have hnv : p.ptype ≠ .versionNeg := by rw [ht]; cases hl : x.level <;> simp [Level.ptype]
+  have hsel : selectDecryptor P s p = (s, .ok (some d)) := by
+    simp only [selectDecryptor, hh, ht, hdec]
+  have hdp : decryptPacket P s p = decryptRest P s p (some d) := by simp [decryptPacket, hsel]
+  have hrest := decryptRest_emitted P L s p d k (spaceOf x.level) _ x.pn x.pnLen (header x) x.frames
+    (by rw [hsrv]; exact hdir) hsp hattr (by rw [hsrv]) hpnb hpn haad hpl hwf hk hiv
+  rw [hsrv] at hrest
+  have hdp' : decryptPacket P s p = r := by rw [hdp, hrest]
+  simp only [stepPkt, hnr, hnv, ne_eq, not_false_eq_true, and_self, if_true, afterDecrypt, if_false, hdp', hh]
+  unfold postLevel
+  by_cases hi : x.level = .initial
+  · have : p.ptype = .initial := by rw [ht, hi]; rfl
+    simp [hi, this]
+  · have : p.ptype ≠ .initial := by rw [ht]; cases hl : x.level <;> simp_all [Level.ptype]
+    simp [hi, this]
+
+end LongStep
+/-! ### the handshake in the composed session: invariants -/
+
+section HsInv
+variable (H : Crypto.Prims) (Pc : Cipher.Prims)
+
+/-- the Handshake decryptor RFC 9001 §5.1 gives for the two handshake traffic secrets -/
+def hsDec (sel : SuiteSel) (sh ch : Bytes) : Dec :=
+  { alg := sel.alg,
+    server := some ⟨quicKey (hashOf H sel.hash) sh sel.keyLen, quicIv (hashOf H sel.hash) sh⟩,
+    client := ⟨quicKey (hashOf H sel.hash) ch sel.keyLen, quicIv (hashOf H sel.hash) ch⟩ }
+
+/-- the Initial decryptor RFC 9001 §5.2 gives for the client's first Destination Connection ID -/
+def initDec (dcid0 : Bytes) : Dec :=
+  { alg := .aesgcm,
+    server := some ⟨(quicInitialServerKeys H.sha256 dcid0).key, (quicInitialServerKeys H.sha256 dcid0).iv⟩,
+    client := ⟨(quicInitialClientKeys H.sha256 dcid0).key, (quicInitialClientKeys H.sha256 dcid0).iv⟩ }
+
+/-- `set_tls_decryptors` ran for the connection's suite with the connection's key-log lines: Handshake and generation-0
+    Application decryptors and the four header-protection keys are RFC 9001 §5.1's -/
+structure Keyed (sel : SuiteSel) (ch sh ca sa : Bytes) (s : St Tls) : Prop where
+  suite : s.suite = some sel
+  hs : s.decHandshake = some (hsDec H sel sh ch)
+  app : s.decApp = some [(rfcGen (hashOf H sel.hash) sel.keyLen sa ca 0).toDec sel.alg]
+  hpSH : s.tls.hp.serverHandshake = some (quicHp (hashOf H sel.hash) sh sel.keyLen)
+  hpCH : s.tls.hp.clientHandshake = some (quicHp (hashOf H sel.hash) ch sel.keyLen)
+  hpSA : s.tls.hp.serverApplication = some (quicHp (hashOf H sel.hash) sa sel.keyLen)
+  hpCA : s.tls.hp.clientApplication = some (quicHp (hashOf H sel.hash) ca sel.keyLen)
+
+/-- what no handshake step changes (before the first 1-RTT packet): version and stamp, the Initial decryptor and
+    header-protection keys of the first DCID, epochs and key phases at their initial values, nothing decrypted in the
+    application packet-number space, nothing in `output_buffer` that is exported without `-a` -/
+structure HsInv (dcid0 : Bytes) (s : St Tls) : Prop where
+  version : s.version = .v1
+  ver : s.tls.ver = s.version
+  init : s.decInitial = some (initDec H dcid0)
+  hpSI : s.tls.hp.serverInitial = some (quicInitialServerKeys H.sha256 dcid0).hp
+  hpCI : s.tls.hp.clientInitial = some (quicInitialClientKeys H.sha256 dcid0).hp
+  ec : s.epochClient = 0
+  es : s.epochServer = 0
+  lpc : s.lastPhaseClient = some 0
+  lps : s.lastPhaseServer = some 0
+  out : ∀ o ∈ s.out, UdpOut.exported false (frameOf o) = none
+
+/-- the parser part of a `QuicTlsSession` (the adapter fields set to their defaults) -/
+def coreOf (t : Tls) : Tls := { t with ver := .unknown, hp := {} }
+
+def clearND (t : Tls) : Tls := { t with msgs := { t.msgs with newData := false } }
+
+theorem tlsUpdate_core (t : Tls) (c : CryptoIn) :
+    tlsUpdate t c = ({ (tlsUpdate (coreOf t) c).1 with ver := t.ver, hp := t.hp }, (tlsUpdate (coreOf t) c).2) := by
+  unfold tlsUpdate coreOf
+  split <;> rfl
+
+/-- `set_tls_decryptors` as `handle_crypto_frame` calls it during a handshake, with the connection's lines in the key log:
+    it never raises, clears `new_data`, leaves everything `HsInv` and the bookkeeping speak about alone, and — when the
+    suite is the connection's — installs the RFC keys (`Keyed`), whatever was installed before (idempotent). -/
+theorem afterTls_hs (kl : List Keylog.Key) (s : St Tls) (cr cs ch sh ca sa : Bytes) (early : Option Bytes)
+    (hv1 : s.version = .v1) (hv : s.tls.ver = s.version)
+    (hn : s.tls.msgs.newData = true) (hcr : s.tls.msgs.clientRandom = some cr) (hcs : s.tls.msgs.ciphersuite = some cs)
+    (hkl : KeylogHas kl cr ch sh ca sa early) :
+    (afterTls (params H Pc kl) s).2 = none ∧
+    (∀ sel, selectSuite cs = some sel → Keyed H sel ch sh ca sa (afterTls (params H Pc kl) s).1) ∧
+    (afterTls (params H Pc kl) s).1.version = s.version ∧ (afterTls (params H Pc kl) s).1.decInitial = s.decInitial ∧
+    (afterTls (params H Pc kl) s).1.epochClient = s.epochClient ∧ (afterTls (params H Pc kl) s).1.epochServer = s.epochServer ∧
+    (afterTls (params H Pc kl) s).1.lastPhaseClient = s.lastPhaseClient ∧
+    (afterTls (params H Pc kl) s).1.lastPhaseServer = s.lastPhaseServer ∧
+    (afterTls (params H Pc kl) s).1.pnClient = s.pnClient ∧ (afterTls (params H Pc kl) s).1.pnServer = s.pnServer ∧
+    (afterTls (params H Pc kl) s).1.clientCids = s.clientCids ∧ (afterTls (params H Pc kl) s).1.serverCids = s.serverCids ∧
+    (afterTls (params H Pc kl) s).1.out = s.out ∧ (afterTls (params H Pc kl) s).1.tls.ver = s.tls.ver ∧
+    (afterTls (params H Pc kl) s).1.tls.hp.serverInitial = s.tls.hp.serverInitial ∧
+    (afterTls (params H Pc kl) s).1.tls.hp.clientInitial = s.tls.hp.clientInitial ∧
+    coreOf (afterTls (params H Pc kl) s).1.tls = clearND (coreOf s.tls) := by
+  have e1 : (params H Pc kl).tlsNewData s.tls = true := hn
+  have e2 : (params H Pc kl).tlsClientRandom s.tls = some cr := hcr
+  have e3 : (params H Pc kl).tlsCiphersuite s.tls = some cs := hcs
+  unfold afterTls
+  simp only [e1, if_true, e2, e3, setTlsDecryptors]
+  cases hsel : selectSuite cs with
+  | none =>
+    simp [params, tlsClearNewData, hcr, hcs, hsel, coreOf, clearND]
+  | some sel =>
+    have hk : sel.keyLen < 65536 := by
+      unfold selectSuite at hsel
+      repeat' split at hsel
+      all_goals first
+        | (cases hsel; decide)
+        | (simp at hsel)
+    obtain ⟨k, hdq, k1, k2, k3, k4, k5, k6, k7⟩ := devQuic_rfc H kl sel hk cr ch sh ca sa early hkl
+    have hdq' : devQuic H kl sel s.version cr = .ok k := by rw [hv1]; exact hdq
+    have e4 : (params H Pc kl).devQuicKeys sel s.version cr = .ok (groupsOf k) := by
+      show (devQuic H kl sel s.version cr).map groupsOf = _
+      rw [hdq']; rfl
+    simp only [e4]
+    cases hke : k.clientEarly <;>
+      (refine ⟨trivial, ?_, ?_, ?_, ?_, ?_, ?_, ?_, ?_, ?_, ?_, ?_, ?_, ?_, ?_, ?_, ?_⟩ <;>
+        first
+        | (intro sel' hs'; cases hs'
+           refine ⟨?_, ?_, ?_, ?_, ?_, ?_, ?_⟩ <;>
+           simp [installGroups, groupsOf, hke, params, tlsClearNewData, hcr, hcs, hsel, hv, hdq', AppKeys.toDec, hsDec,
+             rfcGen, quicGeneration, k1, k2, k3, k4, k5, k6, dirOf, tripleSpec, quicPacketKeys, HpKeys.withTls])
+        | simp [installGroups, groupsOf, hke, params, tlsClearNewData, hcr, hcs, hsel, hv, hdq', coreOf, clearND,
+            HpKeys.withTls])
+
+end HsInv
+
+section HsFrames
+variable (H : Crypto.Prims) (Pc : Cipher.Prims)
+
+/-- LOCAL parser hypothesis: what the concrete `QuicTlsSession` does on the CRYPTO inputs of THIS history, in processing
+    order, starting from parser state `t`: `update_session` never raises; whenever it leaves `new_data` set, the client
+    random is the connection's and the cipher suite is the selected one `csel` — except after a CRYPTO frame of a client
+    Initial packet (the ClientHello: first offered suite). `new_data` is cleared between the inputs (`handle_crypto_frame`). -/
+def PTrace (cr csel : Bytes) : Tls → List CryptoIn → Prop
+  | _, [] => True
+  | t, c :: rest =>
+    (tlsUpdate t c).2 = none ∧
+    ((tlsUpdate t c).1.msgs.newData = true →
+      (tlsUpdate t c).1.msgs.clientRandom = some cr ∧
+      ∃ cs, (tlsUpdate t c).1.msgs.ciphersuite = some cs ∧ (¬ (c.isServer = false ∧ c.ptype = .initial) → cs = csel)) ∧
+    PTrace cr csel (clearND (tlsUpdate t c).1) rest
+
+/-- the session during the handshake: `HsInv`, no pending `new_data`, parser part `core`, packet-number tables, CID sets,
+    and — once `keyed` — the RFC keys of the selected suite -/
+structure HsSt (dcid0 : Bytes) (sel : SuiteSel) (ch sh ca sa : Bytes) (keyed : Bool) (s : St Tls) (tc ts : PnTab)
+    (cc sc : List Bytes) (core : Tls) : Prop where
+  inv : HsInv H dcid0 s
+  nd : s.tls.msgs.newData = false
+  core : coreOf s.tls = core
+  pc : s.pnClient = tc
+  ps : s.pnServer = ts
+  cc : s.clientCids = cc
+  sc : s.serverCids = sc
+  keyed : keyed = true → Keyed H sel ch sh ca sa s
+
+theorem coreOf_idem (t : Tls) : coreOf (coreOf t) = coreOf t := rfl
+
+theorem coreOf_fix (t : Tls) (h1 : t.ver = .unknown) (h2 : t.hp = {}) : coreOf t = t := by
+  cases t; simp_all [coreOf]
+
+theorem tlsUpdate_ver_hp (t : Tls) (c : CryptoIn) : (tlsUpdate t c).1.ver = t.ver ∧ (tlsUpdate t c).1.hp = t.hp := by
+  unfold tlsUpdate; split <;> exact ⟨rfl, rfl⟩
+
+theorem coreOf_with (t : Tls) (v : Version) (h : HpKeys) : coreOf { t with ver := v, hp := h } = coreOf t := rfl
+
+theorem handleCrypto_hs (kl : List Keylog.Key) (dcid0 cr csel ch sh ca sa : Bytes) (early : Option Bytes) (sel : SuiteSel)
+    (hsel : selectSuite csel = some sel) (hkl : KeylogHas kl cr ch sh ca sa early)
+    (keyed : Bool) (s : St Tls) (tc ts : PnTab) (cc sc : List Bytes) (core : Tls)
+    (hst : HsSt H dcid0 sel ch sh ca sa keyed s tc ts cc sc core) (p : Pkt) (f : Frame.Parsed)
+    (hf : isCryptoP f = true) (c : CryptoIn) (rest : List CryptoIn)
+    (htr : PTrace cr csel core (c :: rest))
+    (hcl : keyed = true → ¬ (c.isServer = false ∧ c.ptype = .initial)) :
+    (handleCrypto (params H Pc kl) s p f c).2 = none ∧
+    HsSt H dcid0 sel ch sh ca sa keyed (handleCrypto (params H Pc kl) s p f c).1 tc ts cc sc
+      (clearND (tlsUpdate core c).1) ∧
+    ((tlsUpdate core c).1.msgs.newData = true → ¬ (c.isServer = false ∧ c.ptype = .initial) →
+      Keyed H sel ch sh ca sa (handleCrypto (params H Pc kl) s p f c).1) ∧
+    PTrace cr csel (clearND (tlsUpdate core c).1) rest := by
+  obtain ⟨t1, t2, t3⟩ := htr
+  obtain ⟨hinv, hnd, hcore, hpc, hps, hcc, hsc, hkeyed⟩ := hst
+  have hup := tlsUpdate_core s.tls c
+  rw [hcore] at hup
+  have hfix : coreOf (tlsUpdate core c).1 = (tlsUpdate core c).1 := by
+    obtain ⟨q1, q2⟩ := tlsUpdate_ver_hp core c
+    apply coreOf_fix
+    · rw [q1, ← hcore]; rfl
+    · rw [q2, ← hcore]; rfl
+  generalize hu : tlsUpdate core c = u at hup t1 t2 t3 hfix ⊢
+  obtain ⟨ut, ue⟩ := u
+  simp only at t1 t2 t3 hup hfix ⊢
+  subst t1
+  have hfo : ∀ o, o = mkOut p f → UdpOut.exported false (frameOf o) = none := by
+    intro o ho; subst ho
+    cases f <;> simp [isCryptoP] at hf
+    simp [mkOut, frameOf, UdpOut.exported, UdpOut.isStream]
+  have hPup : (params H Pc kl).tlsUpdate s.tls c = ({ ut with ver := s.tls.ver, hp := s.tls.hp }, none) := hup
+  unfold handleCrypto
+  rw [hPup]
+  simp only
+  by_cases hn : ut.msgs.newData = true
+  · -- a hello was completed: set_tls_decryptors
+    obtain ⟨hcr, cs, hcs, hcsel⟩ := t2 hn
+    have a := afterTls_hs H Pc kl { s with tls := { ut with ver := s.tls.ver, hp := s.tls.hp } } cr cs ch sh ca sa early
+      hinv.version hinv.ver hn hcr hcs hkl
+    obtain ⟨a0, aK, a1, a2, a3, a4, a5, a6, a7, a8, a9, a10, a11, a12, a13, a14, a15⟩ := a
+    generalize hat : afterTls (params H Pc kl) { s with tls := { ut with ver := s.tls.ver, hp := s.tls.hp } } = r at *
+    obtain ⟨s', e'⟩ := r
+    simp only at a0 aK a1 a2 a3 a4 a5 a6 a7 a8 a9 a10 a11 a12 a13 a14 a15 ⊢
+    subst a0
+    simp only
+    have hcore' : coreOf s'.tls = clearND ut := by
+      rw [a15, coreOf_with, hfix]
+    have hnd' : s'.tls.msgs.newData = false := by
+      have := congrArg (fun t => t.msgs.newData) hcore'
+      simpa [coreOf, clearND] using this
+    refine ⟨trivial, ⟨⟨a1.trans hinv.version, by rw [a12, a1]; exact hinv.ver, by rw [a2]; exact hinv.init,
+        by rw [a13]; exact hinv.hpSI, by rw [a14]; exact hinv.hpCI, by rw [a3]; exact hinv.ec, by rw [a4]; exact hinv.es,
+        by rw [a5]; exact hinv.lpc, by rw [a6]; exact hinv.lps, ?_⟩, ?_, ?_, by rw [a7]; exact hpc, by rw [a8]; exact hps,
+        by rw [a9]; exact hcc, by rw [a10]; exact hsc, ?_⟩, ?_, t3⟩
+    · intro o ho
+      simp only [List.mem_append, List.mem_singleton, a11] at ho
+      rcases ho with ho | ho
+      · exact hinv.out o ho
+      · exact hfo o ho
+    · simpa [coreOf] using hnd'
+    · simpa [coreOf] using hcore'
+    · intro hk
+      have := hcsel (hcl hk)
+      subst this
+      have := aK sel hsel
+      exact ⟨this.suite, this.hs, this.app, this.hpSH, this.hpCH, this.hpSA, this.hpCA⟩
+    · intro _ hni
+      have := hcsel hni
+      subst this
+      have := aK sel hsel
+      exact ⟨this.suite, this.hs, this.app, this.hpSH, this.hpCH, this.hpSA, this.hpCA⟩
+  · -- nothing new: the frame is buffered / a message without effect
+    have hn' : ut.msgs.newData = false := by simpa using hn
+    have hflag : (params H Pc kl).tlsNewData { ut with ver := s.tls.ver, hp := s.tls.hp } = false := hn'
+    simp only [afterTls, hflag, Bool.false_eq_true, if_false]
+    have hclr : clearND ut = ut := by
+      obtain ⟨fr, ms, ni, vv, hh⟩ := ut
+      obtain ⟨m1, m2, m3, m4, m5, m6, m7⟩ := ms
+      simp_all [clearND]
+    rw [hclr] at t3 ⊢
+    refine ⟨trivial, ⟨⟨hinv.version, hinv.ver, hinv.init, hinv.hpSI, hinv.hpCI, hinv.ec, hinv.es, hinv.lpc, hinv.lps, ?_⟩,
+      hn', by rw [coreOf_with, hfix], hpc, hps, hcc, hsc, ?_⟩, fun h => absurd h hn, t3⟩
+    · intro o ho
+      simp only [List.mem_append, List.mem_singleton] at ho
+      rcases ho with ho | ho
+      · exact hinv.out o ho
+      · exact hfo o ho
+    · intro hk
+      have := hkeyed hk
+      exact ⟨this.suite, this.hs, this.app, this.hpSH, this.hpCH, this.hpSA, this.hpCA⟩
+
+/-- frames a handshake-level packet may carry besides CRYPTO: anything but STREAM and NEW_CONNECTION_ID (RFC 9000 §12.4:
+    Initial and Handshake packets carry PADDING, PING, ACK, CRYPTO, CONNECTION_CLOSE only) -/
+def hsFrameP (f : Frame.Parsed) : Bool :=
+  match f with
+  | .stream .. => false
+  | .newConnectionId .. => false
+  | _ => true
+
+/-- the CRYPTO inputs `handle_frame` hands to the TLS parser for the frames of packet `p`, in order -/
+def cryptoInsP (p : Pkt) (fs : List Frame.Parsed) : List CryptoIn :=
+  fs.filterMap fun f => match f with | .crypto _ off len data => some (cryptoIn p off len data) | _ => none
+
+/-- the parser part after a list of CRYPTO inputs -/
+def pfold (t : Tls) (cs : List CryptoIn) : Tls := cs.foldl (fun t c => clearND (tlsUpdate t c).1) t
+
+/-- did one of them complete a hello (`new_data`)? -/
+def pfired : Tls → List CryptoIn → Bool
+  | _, [] => false
+  | t, c :: rest => (tlsUpdate t c).1.msgs.newData || pfired (clearND (tlsUpdate t c).1) rest
+
+theorem handleFrames_hs (kl : List Keylog.Key) (dcid0 cr csel ch sh ca sa : Bytes) (early : Option Bytes) (sel : SuiteSel)
+    (hsel : selectSuite csel = some sel) (hkl : KeylogHas kl cr ch sh ca sa early)
+    (keyed : Bool) (p : Pkt) (fs : List Frame.Parsed)
+    (hcl : keyed = true → ¬ (p.isServer = false ∧ p.ptype = .initial) ∨ cryptoInsP p fs = [])
+    (hok : ∀ f ∈ fs, hsFrameP f = true) (rest : List CryptoIn)
+    (s : St Tls) (tc ts : PnTab) (cc sc : List Bytes) (core : Tls)
+    (hst : HsSt H dcid0 sel ch sh ca sa keyed s tc ts cc sc core)
+    (htr : PTrace cr csel core (cryptoInsP p fs ++ rest)) :
+    (handleFrames (params H Pc kl) s p fs).2 = none ∧
+    HsSt H dcid0 sel ch sh ca sa keyed (handleFrames (params H Pc kl) s p fs).1 tc ts cc sc
+      (pfold core (cryptoInsP p fs)) ∧
+    (pfired core (cryptoInsP p fs) = true → ¬ (p.isServer = false ∧ p.ptype = .initial) →
+      Keyed H sel ch sh ca sa (handleFrames (params H Pc kl) s p fs).1) ∧
+    PTrace cr csel (pfold core (cryptoInsP p fs)) rest := by
+  induction fs generalizing s core keyed with
+  | nil => exact ⟨rfl, hst, by simp [pfired, cryptoInsP], htr⟩
+  | cons f fs ih =>
+    have hf := hok f (List.mem_cons_self ..)
+    have hrest := fun g hg => hok g (List.mem_cons_of_mem _ hg)
+    by_cases hc : isCryptoP f = true
+    · -- CRYPTO
+      cases f <;> simp [isCryptoP] at hc
+      rename_i l off len data
+      have hins : cryptoInsP p (.crypto l off len data :: fs) = cryptoIn p off len data :: cryptoInsP p fs := by
+        simp [cryptoInsP]
+      have hni' : keyed = true → ¬ (p.isServer = false ∧ p.ptype = .initial) :=
+        fun hk => (hcl hk).resolve_right (by rw [hins]; simp)
+      rw [hins] at htr ⊢
+      obtain ⟨b1, b2, b3, b4⟩ := handleCrypto_hs H Pc kl dcid0 cr csel ch sh ca sa early sel hsel hkl keyed s tc ts cc sc
+        core hst p (.crypto l off len data) rfl (cryptoIn p off len data) (cryptoInsP p fs ++ rest) htr
+        (by simpa [cryptoIn] using hni')
+      have hstep : handleFrame (params H Pc kl) s p (.crypto l off len data) =
+          handleCrypto (params H Pc kl) s p (.crypto l off len data) (cryptoIn p off len data) := rfl
+      unfold handleFrames
+      rw [hstep]
+      generalize hr : handleCrypto (params H Pc kl) s p (.crypto l off len data) (cryptoIn p off len data) = r at b1 b2 b3
+      obtain ⟨s1, e1⟩ := r
+      simp only at b1 b2 b3 ⊢
+      subst b1
+      simp only
+      obtain ⟨i1, i2, i3, i4⟩ := ih keyed (fun hk => Or.inl (hni' hk)) hrest s1 _ b2 b4
+      refine ⟨i1, i2, ?_, i4⟩
+      · intro hfire hni
+        simp only [pfired, Bool.or_eq_true] at hfire
+        by_cases hlater : pfired (clearND (tlsUpdate core (cryptoIn p off len data)).1) (cryptoInsP p fs) = true
+        · exact i3 hlater hni
+        · have h1 : (tlsUpdate core (cryptoIn p off len data)).1.msgs.newData = true := by
+            rcases hfire with h | h
+            · exact h
+            · exact absurd h hlater
+          -- the keys installed by this frame survive the later (quiet) frames: use the `keyed` flag of a stronger state
+          have hk1 := b3 h1 (by simpa [cryptoIn] using hni)
+          have b2' : HsSt H dcid0 sel ch sh ca sa true s1 tc ts cc sc (clearND (tlsUpdate core (cryptoIn p off len data)).1) :=
+            ⟨b2.inv, b2.nd, b2.core, b2.pc, b2.ps, b2.cc, b2.sc, fun _ => hk1⟩
+          exact ((ih true (fun _ => Or.inl hni) hrest s1 _ b2' b4).2.1.keyed) rfl
+    · -- an inert frame
+      have hins : cryptoInsP p (f :: fs) = cryptoInsP p fs := by
+        cases f <;> simp [isCryptoP] at hc <;> simp [cryptoInsP]
+      have hstep : handleFrame (params H Pc kl) s p f = (s, none) := by
+        cases f <;> simp [isCryptoP] at hc <;> simp [hsFrameP] at hf <;> rfl
+      rw [hins] at htr hcl ⊢
+      unfold handleFrames
+      rw [hstep]
+      exact ih keyed hcl hrest s core hst htr
+
+end HsFrames
+
+/-! ### one handshake-level packet -/
+
+section HsPacket
+variable (H : Crypto.Prims) (Pc : Cipher.Prims)
+
+/-- the CRYPTO inputs of a sender's packet, in frame order -/
+def cryptoIns (x : SPkt) : List CryptoIn :=
+  x.frames.filterMap fun f => match f with
+    | .crypto off _ data => some ⟨x.srv, x.level.ptype, off.val, data.length, data⟩
+    | _ => none
+
+/-- RFC 9000 §12.4 for Initial and Handshake packets -/
+def hsFrameQ (f : QFrame) : Bool :=
+  match f with
+  | .stream .. => false
+  | .newConnectionId .. => false
+  | _ => true
+
+theorem hsFrameP_toParsed (f : QFrame) : hsFrameP f.toParsed = hsFrameQ f := by cases f <;> rfl
+
+theorem normalize_hsFrame (fs : List QFrame) (h : ∀ f ∈ fs, hsFrameQ f = true) : ∀ f ∈ normalize fs, hsFrameQ f = true := by
+  induction fs with
+  | nil => simp [normalize]
+  | cons a rest ih =>
+    have ih' := ih (fun g hg => h g (List.mem_cons_of_mem _ hg))
+    have ha := h a (List.mem_cons_self ..)
+    cases a <;> simp only [normalize] <;> try (intro f hf; rcases List.mem_cons.mp hf with rfl | hf; exact ha; exact ih' f hf)
+    split
+    · rename_i b r heq
+      rw [heq] at ih'
+      intro f hf
+      rcases List.mem_cons.mp hf with rfl | hf
+      · rfl
+      · exact ih' f (List.mem_cons_of_mem _ hf)
+    · intro f hf
+      rcases List.mem_cons.mp hf with rfl | hf
+      · rfl
+      · exact ih' f hf
+
+theorem cryptoIns_eq (L : Seal) (alg : Alg) (k : DirKeys) (x : SPkt) (hne : x.level ≠ .oneRtt) :
+    cryptoInsP (emit L alg k x) ((normalize x.frames).map QFrame.toParsed) = cryptoIns x := by
+  have hsrv : (emit L alg k x).isServer = x.srv := by simp [emit, hne]
+  have hpt : (emit L alg k x).ptype = x.level.ptype := by simp [emit, hne]
+  unfold cryptoIns cryptoInsP
+  generalize emit L alg k x = p at hsrv hpt
+  induction x.frames with
+  | nil => rfl
+  | cons f rest ih =>
+    by_cases hp : f.isPadding = true
+    · cases f <;> simp [QFrame.isPadding] at hp
+      rename_i a
+      rcases Lemmas.QuicFrameSeq.normalize_pad_cases a rest with ⟨h0, h1⟩ | ⟨b, r, h0, h1⟩ | ⟨g, r, h0, _, h1⟩
+      · rw [h1]; rw [h0] at ih; simp [QFrame.toParsed] at ih ⊢; exact ih
+      · rw [h1]; rw [h0] at ih; simp [QFrame.toParsed] at ih ⊢; exact ih
+      · rw [h1]; rw [h0] at ih; simp [QFrame.toParsed] at ih ⊢; exact ih
+    · rw [Lemmas.QuicFrameSeq.normalize_nonpad f rest (by simpa using hp)]
+      cases f <;> simp [QFrame.toParsed, List.filterMap_cons, cryptoIn, hsrv, hpt] at ih ⊢ <;> exact ih
+
+/-- the decryptor of a handshake-level packet's encryption level, and the sender's key in it -/
+def lvlDec (dcid0 : Bytes) (sel : SuiteSel) (sh ch : Bytes) (lv : Level) : Dec :=
+  if lv = .initial then initDec H dcid0 else hsDec H sel sh ch
+
+def lvlKey (dcid0 : Bytes) (sel : SuiteSel) (sh ch : Bytes) (lv : Level) (srv : Bool) : DirKeys :=
+  if srv then ((lvlDec H dcid0 sel sh ch lv).server.getD default) else (lvlDec H dcid0 sel sh ch lv).client
+
+/-- RFC 9000 §7.2: an Initial packet teaches the observer both connection IDs -/
+def learn (cc sc : List Bytes) (x : SPkt) : List Bytes × List Bytes :=
+  if x.level = .initial then
+    (if x.srv then (issue cc [x.dcid], issue sc [x.scid]) else (issue cc [x.scid], issue sc [x.dcid]))
+  else (cc, sc)
+
+theorem hs_packet_step (hl : H.Lawful) (kl : List Keylog.Key) (L : SealLaws Pc) (dcid0 cr csel ch sh ca sa : Bytes)
+    (early : Option Bytes) (sel : SuiteSel) (hsel : selectSuite csel = some sel) (hkl : KeylogHas kl cr ch sh ca sa early)
+    (keyed : Bool) (x : SPkt) (hlv : x.level = .initial ∨ (x.level = .handshake ∧ keyed = true))
+    (hcl : keyed = true → ¬ (x.srv = false ∧ x.level = .initial) ∨ cryptoIns x = [])
+    (hfr : ∀ f ∈ x.frames, hsFrameQ f = true) (hwf : WellFormedSeq x.frames) (rest : List CryptoIn)
+    (s : St Tls) (tc ts : PnTab) (cc sc : List Bytes) (core : Tls)
+    (hst : HsSt H dcid0 sel ch sh ca sa keyed s tc ts cc sc core)
+    (hpn : PnLenOk ((if x.srv then ts else tc).get (spaceOf x.level)) x.pn x.pnLen)
+    (htr : PTrace cr csel core (cryptoIns x ++ rest)) :
+    let p := emit L.aeadSeal (lvlDec H dcid0 sel sh ch x.level).alg (lvlKey H dcid0 sel sh ch x.level x.srv) x
+    let r := stepPkt (params H Pc kl) s p
+    r.escaped = none ∧ r.caught = none ∧
+    HsSt H dcid0 sel ch sh ca sa keyed r.st
+      (if x.srv then tc else bump tc (spaceOf x.level) x.pn) (if x.srv then bump ts (spaceOf x.level) x.pn else ts)
+      (learn cc sc x).1 (learn cc sc x).2 (pfold core (cryptoIns x)) ∧
+    (pfired core (cryptoIns x) = true → ¬ (x.srv = false ∧ x.level = .initial) → Keyed H sel ch sh ca sa r.st) ∧
+    PTrace cr csel (pfold core (cryptoIns x)) rest := by
+  intro p r
+  have hne : x.level ≠ .oneRtt := by rcases hlv with h | ⟨h, _⟩ <;> simp [h]
+  have hlaw256 : H.sha256.Lawful := hl.sha256
+  have hlawS : (hashOf H sel.hash).Lawful := by cases sel.hash <;> simp [hashOf, hl.sha256, hl.sha384]
+  have hcases : (sel.alg = .aesgcm ∧ sel.keyLen = 16) ∨ (sel.alg = .aesgcm ∧ sel.keyLen = 32) ∨
+      (sel.alg = .chachaPoly ∧ sel.keyLen = 32) ∨ (sel.alg = .aesccm ∧ sel.keyLen = 16) := by
+    unfold selectSuite at hsel
+    repeat' split at hsel
+    all_goals first
+      | (cases hsel; simp)
+      | (simp at hsel)
+  have hk255 : sel.keyLen ≤ 255 := by rcases hcases with h | h | h | h <;> omega
+  -- the decryptor of the level is installed and holds the sender's key
+  have hdec : longDecryptor s x.level.ptype = .ok (some (lvlDec H dcid0 sel sh ch x.level)) := by
+    rcases hlv with h | ⟨h, hk⟩
+    · simp [h, Level.ptype, longDecryptor, hst.inv.init, lvlDec]
+    · simp [h, Level.ptype, longDecryptor, (hst.keyed hk).hs, lvlDec]
+  have hdir : (if x.srv then (lvlDec H dcid0 sel sh ch x.level).server else some (lvlDec H dcid0 sel sh ch x.level).client) =
+      some (lvlKey H dcid0 sel sh ch x.level x.srv) := by
+    unfold lvlKey lvlDec
+    rcases hlv with h | ⟨h, _⟩ <;> cases x.srv <;> simp [h, initDec, hsDec]
+  have haead : AeadOk (lvlDec H dcid0 sel sh ch x.level).alg (lvlKey H dcid0 sel sh ch x.level x.srv).key.length
+      (lvlKey H dcid0 sel sh ch x.level x.srv).iv.length 16 ∧ 8 ≤ (lvlKey H dcid0 sel sh ch x.level x.srv).iv.length := by
+    unfold lvlKey lvlDec
+    rcases hlv with h | ⟨h, _⟩
+    · cases x.srv <;>
+        simp [h, initDec, quicInitialServerKeys, quicInitialClientKeys, quicPacketKeys, quicKey_length _ hlaw256,
+          quicIv_length _ hlaw256] <;> decide
+    · cases x.srv <;> simp [h, hsDec, quicKey_length _ hlawS _ _ hk255, quicIv_length _ hlawS] <;>
+        (rcases hcases with ⟨a, b⟩ | ⟨a, b⟩ | ⟨a, b⟩ | ⟨a, b⟩ <;> rw [a, b] <;> decide)
+  have hlarge : pnLargest s x.srv (spaceOf x.level) = (if x.srv then ts else tc).get (spaceOf x.level) := by
+    cases x.srv <;> simp [pnLargest, hst.pc, hst.ps]
+  have hstep := step_long_eq (params H Pc kl) L x _ _ s hne hdec hdir haead.1 haead.2 (by rw [hlarge]; exact hpn) hwf
+  simp only at hstep
+  rw [hlarge] at hstep
+  -- the state `handle_frame` starts from
+  generalize hs2 : pnStore s x.srv (spaceOf x.level) (max ((if x.srv then ts else tc).get (spaceOf x.level)) x.pn) = s2 at hstep
+  have hst2 : HsSt H dcid0 sel ch sh ca sa keyed s2 (if x.srv then tc else bump tc (spaceOf x.level) x.pn)
+      (if x.srv then bump ts (spaceOf x.level) x.pn else ts) cc sc core := by
+    subst hs2
+    obtain ⟨i, nd, co, pc, ps, c1, c2, ky⟩ := hst
+    cases hsrv : x.srv <;> simp only [pnStore, hsrv, Bool.false_eq_true, if_false, if_true]
+    · exact ⟨⟨i.version, i.ver, i.init, i.hpSI, i.hpCI, i.ec, i.es, i.lpc, i.lps, i.out⟩, nd, co, by simp [bump, pc], ps, c1, c2,
+        fun hk => let q := ky hk; ⟨q.suite, q.hs, q.app, q.hpSH, q.hpCH, q.hpSA, q.hpCA⟩⟩
+    · exact ⟨⟨i.version, i.ver, i.init, i.hpSI, i.hpCI, i.ec, i.es, i.lpc, i.lps, i.out⟩, nd, co, pc, by simp [bump, ps], c1, c2,
+        fun hk => let q := ky hk; ⟨q.suite, q.hs, q.app, q.hpSH, q.hpCH, q.hpSA, q.hpCA⟩⟩
+  have hins := cryptoIns_eq L.aeadSeal (lvlDec H dcid0 sel sh ch x.level).alg (lvlKey H dcid0 sel sh ch x.level x.srv) x hne
+  have hpsrv : p.isServer = x.srv := by simp [p, emit, hne]
+  have hppt : p.ptype = x.level.ptype := by simp [p, emit, hne]
+  have hci : (p.isServer = false ∧ p.ptype = .initial) ↔ (x.srv = false ∧ x.level = .initial) := by
+    rw [hpsrv, hppt]
+    rcases hlv with h | ⟨h, _⟩ <;> simp [h, Level.ptype]
+  obtain ⟨f1, f2, f3, f4⟩ := handleFrames_hs H Pc kl dcid0 cr csel ch sh ca sa early sel hsel hkl keyed p
+    ((normalize x.frames).map QFrame.toParsed)
+    (by intro hk; rcases hcl hk with h | h
+        · exact Or.inl (by rw [hci]; exact h)
+        · exact Or.inr (by rw [hins]; exact h))
+    (by intro g hg
+        obtain ⟨f, hf, rfl⟩ := List.mem_map.mp hg
+        rw [hsFrameP_toParsed]; exact normalize_hsFrame _ hfr f hf)
+    rest s2 _ _ cc sc core hst2 (by rw [hins]; exact htr)
+  rw [hins] at f2 f3 f4
+  have hr : r = { st := postLevel x.level (handleFrames (params H Pc kl) s2 p ((normalize x.frames).map QFrame.toParsed)).1 p,
+                  caught := (handleFrames (params H Pc kl) s2 p ((normalize x.frames).map QFrame.toParsed)).2,
+                  escaped := none } := hstep
+  rw [hr]
+  refine ⟨rfl, f1, ?_, ?_, f4⟩
+  · -- CID learning of an Initial
+    unfold postLevel learn
+    by_cases hi : x.level = .initial
+    · simp only [hi, if_true]
+      obtain ⟨i, nd, co, pc, ps, c1, c2, ky⟩ := f2
+      have hpd : p.dcid = x.dcid := by simp [p, emit, hne]
+      have hps2 : p.scid = some x.scid := by simp [p, emit, hne]
+      unfold learnCids
+      rw [hpsrv]
+      cases hsrv : x.srv <;> simp only [hsrv, hi, Bool.false_eq_true, if_false, if_true] at pc ps ⊢
+      · exact ⟨⟨i.version, i.ver, i.init, i.hpSI, i.hpCI, i.ec, i.es, i.lpc, i.lps, i.out⟩, nd, co, pc, ps,
+          by simp [hps2, optAdd, c1, issue_eq], by simp [hpd, c2, issue_eq],
+          fun hk => let q := ky hk; ⟨q.suite, q.hs, q.app, q.hpSH, q.hpCH, q.hpSA, q.hpCA⟩⟩
+      · exact ⟨⟨i.version, i.ver, i.init, i.hpSI, i.hpCI, i.ec, i.es, i.lpc, i.lps, i.out⟩, nd, co, pc, ps,
+          by simp [hpd, c1, issue_eq], by simp [hps2, optAdd, c2, issue_eq],
+          fun hk => let q := ky hk; ⟨q.suite, q.hs, q.app, q.hpSH, q.hpCH, q.hpSA, q.hpCA⟩⟩
+    · simp only [hi, if_false]; exact f2
+  · intro hfire hni
+    have hk := f3 hfire (by rw [hci]; exact hni)
+    unfold postLevel
+    split
+    · unfold learnCids; split <;> exact ⟨hk.suite, hk.hs, hk.app, hk.hpSH, hk.hpCH, hk.hpSA, hk.hpCA⟩
+    · exact hk
+
+end HsPacket
+
+/-! ### a handshake packet on the wire -/
+
+theorem longOf_first (x : SPkt) (pl : Bytes) (hs : LongShape x) (h1 : 1 ≤ x.pnLen) (h4 : x.pnLen ≤ 4) :
+    (longOf x pl).first = firstByteLong x := by
+  unfold Long.first firstByteLong longOf
+  simp only [pnBytes_length, hs.typeBits]
+  congr 1
+  have : (ltypeOf x.level).bits < 4 := by cases x.level <;> simp [ltypeOf, LType.bits]
+  omega
+
+theorem longOf_wf (x : SPkt) (pl : Bytes) (hs : LongShape x) (h1 : 1 ≤ x.pnLen) (h4 : x.pnLen ≤ 4)
+    (hpl : pl.length = (encodeAll x.frames).length + 16) : (longOf x pl).wf := by
+  refine ⟨?_, ?_, ?_, ?_, ?_, ?_, ?_, ?_⟩
+  · show x.lowBits % 4 < 4; omega
+  · show x.version.length = 4; rw [hs.version]; rfl
+  · show x.dcid.length ≤ 255; have := hs.dcid; omega
+  · show x.scid.length ≤ 255; have := hs.scid; omega
+  · show 1 ≤ (pnBytes x.pnLen x.pn).length; rw [pnBytes_length]; exact h1
+  · show (pnBytes x.pnLen x.pn).length ≤ 4; rw [pnBytes_length]; exact h4
+  · exact hs.tok
+  · show x.lenW.fits ((pnBytes x.pnLen x.pn).length + pl.length)
+    rw [pnBytes_length, hpl, ← Nat.add_assoc]; exact hs.len
+
+theorem longOf_toPkt (sealFn : Seal) (alg : Alg) (k : DirKeys) (x : SPkt) (hs : LongShape x)
+    (h1 : 1 ≤ x.pnLen) (h4 : x.pnLen ≤ 4)
+    (hpl : (protectedPayload sealFn alg k x).length = (encodeAll x.frames).length + 16) :
+    (longOf x (protectedPayload sealFn alg k x)).toPkt x.srv x.ts = emit sealFn alg k x := by
+  have hne : x.level ≠ .oneRtt := by rcases hs.level with h | h <;> simp [h]
+  unfold Long.toPkt emit
+  rw [longOf_first x _ hs h1 h4]
+  simp only [hne, if_false]
+  rcases hs.level with h | h <;>
+    simp [longOf, h, ltypeOf, LType.ptype, Level.ptype, Long.lengthField, lengthField, pnBytes_length, hpl, Nat.add_assoc]
+
+/-! ### handshake datagrams through `handle_packet` -/
+
+section HsDatagram
+variable (maskFn : Dissect.MaskFn) (H : Crypto.Prims) (Pc : Cipher.Prims)
+
+/-- what the observer's bookkeeping is after the packets so far: keys installed?, largest packet numbers, CID sets, and the
+    parser part of the TLS session (the concrete `QuicTlsSession` on the CRYPTO inputs so far) -/
+structure Trk where
+  keyed : Bool
+  tc : PnTab
+  ts : PnTab
+  cc : List Bytes
+  sc : List Bytes
+  core : Tls
+
+def Trk.step (t : Trk) (x : SPkt) : Trk :=
+  { keyed := t.keyed || (pfired t.core (cryptoIns x) && !(!x.srv && decide (x.level = .initial))),
+    tc := if x.srv then t.tc else bump t.tc (spaceOf x.level) x.pn,
+    ts := if x.srv then bump t.ts (spaceOf x.level) x.pn else t.ts,
+    cc := (learn t.cc t.sc x).1, sc := (learn t.cc t.sc x).2,
+    core := pfold t.core (cryptoIns x) }
+
+/-- `tls_session.ciphersuite == b"\x13\x03"` as the dissector is told -/
+def chachaOf (core : Tls) : Bool := core.msgs.ciphersuite == some [0x13, 0x03]
+
+/-- the header-protection key of a handshake-level packet (RFC 9001 §5.1 / §5.2) -/
+def lvlHp (dcid0 : Bytes) (sel : SuiteSel) (sh ch : Bytes) (lv : Level) (srv : Bool) : Bytes :=
+  if lv = .initial then
+    (if srv then (quicInitialServerKeys H.sha256 dcid0).hp else (quicInitialClientKeys H.sha256 dcid0).hp)
+  else quicHp (hashOf H sel.hash) (if srv then sh else ch) sel.keyLen
+
+/-- one handshake-level packet of a conformant sender, relative to the bookkeeping `t`:
+    `shape`   QUIC v1 long header of level Initial / Handshake (`LongShape`);
+    `keys`    a Handshake packet comes after the ServerHello was seen (the keys are installed);
+    `late`    once the keys are installed a client Initial carries no CRYPTO frame (it only acknowledges);
+    `frames`  RFC 9000 §12.4 frame types, well formed; `pn`: RFC 9000 §17.1 window per space and direction;
+    `mask`    header protection with the level's key (AES-based for Initial, the suite's otherwise) -/
+structure HsPkOk (L : SealLaws Pc) (dcid0 : Bytes) (sel : SuiteSel) (sh ch : Bytes) (t : Trk) (q : PkH) : Prop where
+  shape : LongShape q.x
+  keys : q.x.level = .handshake → t.keyed = true
+  late : t.keyed = true → ¬ (q.x.srv = false ∧ q.x.level = .initial) ∨ cryptoIns q.x = []
+  frames : ∀ f ∈ q.x.frames, hsFrameQ f = true
+  wf : WellFormedSeq q.x.frames
+  pn : PnLenOk ((if q.x.srv then t.ts else t.tc).get (spaceOf q.x.level)) q.x.pn q.x.pnLen
+  mask : maskFn (senderChacha (ltypeOf q.x.level) (chachaOf t.core)) (lvlHp H dcid0 sel sh ch q.x.level q.x.srv)
+    (longOf q.x (protectedPayload L.aeadSeal (lvlDec H dcid0 sel sh ch q.x.level).alg
+      (lvlKey H dcid0 sel sh ch q.x.level q.x.srv) q.x)).sample = some q.mask
+  mask5 : 5 ≤ q.mask.length
+
+def pkWire (L : SealLaws Pc) (dcid0 : Bytes) (sel : SuiteSel) (sh ch : Bytes) (q : PkH) : Bytes :=
+  q.wire L.aeadSeal (lvlDec H dcid0 sel sh ch q.x.level).alg (lvlKey H dcid0 sel sh ch q.x.level q.x.srv)
+
+theorem chachaOf_core (s : St Tls) : (envOf s).chacha = chachaOf (coreOf s.tls) := rfl
+
+theorem hs_turn (hl : H.Lawful) (kl : List Keylog.Key) (L : SealLaws Pc) (dcid0 cr csel ch sh ca sa : Bytes)
+    (early : Option Bytes) (sel : SuiteSel) (hsel : selectSuite csel = some sel) (hkl : KeylogHas kl cr ch sh ca sa early)
+    (t : Trk) (q : PkH) (hok : HsPkOk maskFn H Pc L dcid0 sel sh ch t q) (rest : List CryptoIn)
+    (s : St Tls) (hst : HsSt H dcid0 sel ch sh ca sa t.keyed s t.tc t.ts t.cc t.sc t.core)
+    (htr : PTrace cr csel t.core (cryptoIns q.x ++ rest)) (guessed more : Bytes) :
+    ∃ s', HsSt H dcid0 sel ch sh ca sa (t.step q.x).keyed s' (t.step q.x).tc (t.step q.x).ts (t.step q.x).cc
+        (t.step q.x).sc (t.step q.x).core ∧
+      PTrace cr csel (t.step q.x).core rest ∧
+      (Dissect.dissectLoop maskFn (fun x : LoopSt => envOf x.1) (handleTurn (params H Pc kl)) q.x.srv guessed q.x.ts
+        (s, none) (pkWire H Pc L dcid0 sel sh ch q ++ more)).1 =
+      (Dissect.dissectLoop maskFn (fun x : LoopSt => envOf x.1) (handleTurn (params H Pc kl)) q.x.srv guessed q.x.ts
+        (s', none) more).1 := by
+  obtain ⟨hshape, hkeys, hlate, hframes, hwf, hpn, hmask, hm5⟩ := hok
+  have hpn0 := hpn
+  obtain ⟨⟨hn1, hn4⟩, _⟩ := hpn
+  have hlv : q.x.level = .initial ∨ (q.x.level = .handshake ∧ t.keyed = true) := by
+    rcases hshape.level with h | h
+    · exact Or.inl h
+    · exact Or.inr ⟨h, hkeys h⟩
+  obtain ⟨p1, p2, p3, p4, p5⟩ := hs_packet_step H Pc hl kl L dcid0 cr csel ch sh ca sa early sel hsel hkl t.keyed q.x hlv
+    hlate hframes hwf rest s t.tc t.ts t.cc t.sc t.core hst hpn0 htr
+  -- AEAD output length
+  have hlawS : (hashOf H sel.hash).Lawful := by cases sel.hash <;> simp [hashOf, hl.sha256, hl.sha384]
+  have hcases : (sel.alg = .aesgcm ∧ sel.keyLen = 16) ∨ (sel.alg = .aesgcm ∧ sel.keyLen = 32) ∨
+      (sel.alg = .chachaPoly ∧ sel.keyLen = 32) ∨ (sel.alg = .aesccm ∧ sel.keyLen = 16) := by
+    unfold selectSuite at hsel
+    repeat' split at hsel
+    all_goals first
+      | (cases hsel; simp)
+      | (simp at hsel)
+  have hk255 : sel.keyLen ≤ 255 := by rcases hcases with h | h | h | h <;> omega
+  have haead : AeadOk (lvlDec H dcid0 sel sh ch q.x.level).alg (lvlKey H dcid0 sel sh ch q.x.level q.x.srv).key.length
+      (lvlKey H dcid0 sel sh ch q.x.level q.x.srv).iv.length 16 := by
+    unfold lvlKey lvlDec
+    rcases hshape.level with h | h
+    · cases q.x.srv <;>
+        simp [h, initDec, quicInitialServerKeys, quicInitialClientKeys, quicPacketKeys, quicKey_length _ hl.sha256,
+          quicIv_length _ hl.sha256] <;> decide
+    · cases q.x.srv <;> simp [h, hsDec, quicKey_length _ hlawS _ _ hk255, quicIv_length _ hlawS] <;>
+        (rcases hcases with ⟨a, b⟩ | ⟨a, b⟩ | ⟨a, b⟩ | ⟨a, b⟩ <;> rw [a, b] <;> decide)
+  generalize hkd : lvlKey H dcid0 sel sh ch q.x.level q.x.srv = kd at *
+  generalize had : (lvlDec H dcid0 sel sh ch q.x.level).alg = ad at *
+  have hlen : (protectedPayload L.aeadSeal ad kd q.x).length = (encodeAll q.x.frames).length + 16 := by
+    unfold protectedPayload
+    have hnl : (nonce kd.iv q.x.pn).length = kd.iv.length := by simp [nonce, Lemmas.QuicVarint.ofNatBE_length]
+    exact L.seal_len _ _ _ _ _ _ (by rw [hnl]; exact haead)
+  -- the dissector returns the sender's packet
+  have hkey : (envOf s).keys (senderKey (ltypeOf q.x.level) q.x.srv) = some (lvlHp H dcid0 sel sh ch q.x.level q.x.srv) := by
+    unfold lvlHp
+    rcases hshape.level with h | h
+    · cases hs : q.x.srv <;> simp [h, ltypeOf, senderKey, envOf, HpKeys.get, hst.inv.hpSI, hst.inv.hpCI]
+    · have hk := hst.keyed (hkeys h)
+      cases hs : q.x.srv <;> simp [h, ltypeOf, senderKey, envOf, HpKeys.get, hk.hpSH, hk.hpCH]
+  have hextract : Dissect.extract maskFn (envOf s) q.x.srv guessed q.x.ts (pkWire H Pc L dcid0 sel sh ch q ++ more) =
+      { pkts := [emit L.aeadSeal ad kd q.x], rest := more } := by
+    have := C02Dissect.dissect_encode_long maskFn (envOf s) q.x.srv guessed q.x.ts
+      (longOf q.x (protectedPayload L.aeadSeal ad kd q.x)) (longOf_wf _ _ hshape hn1 hn4 hlen)
+      (by show q.x.version ≠ _; rw [hshape.version]; decide)
+      (by show q.x.scid.length ≤ 63; have := hshape.scid; omega)
+      (by show 20 ≤ (pnBytes q.x.pnLen q.x.pn).length + (protectedPayload L.aeadSeal ad kd q.x).length
+          rw [pnBytes_length, hlen]; have := hshape.padded; omega)
+      _ q.mask hkey
+      (by rw [chachaOf_core, hst.core]; exact hmask) hm5 more
+    rw [longOf_toPkt _ _ _ _ hshape hn1 hn4 hlen] at this
+    unfold pkWire PkH.wire
+    rw [hkd, had]
+    exact this
+  have hne : pkWire H Pc L dcid0 sel sh ch q ++ more ≠ [] := by
+    unfold pkWire PkH.wire Long.protect applyMask; simp
+  have p3' : HsSt H dcid0 sel ch sh ca sa (t.step q.x).keyed (stepPkt (params H Pc kl) s (emit L.aeadSeal ad kd q.x)).st
+      (t.step q.x).tc (t.step q.x).ts (t.step q.x).cc (t.step q.x).sc (t.step q.x).core := by
+    refine ⟨p3.inv, p3.nd, p3.core, p3.pc, p3.ps, p3.cc, p3.sc, ?_⟩
+    intro hk
+    simp only [Trk.step, Bool.or_eq_true, Bool.and_eq_true] at hk
+    rcases hk with hk | ⟨hf, hni⟩
+    · exact p3.keyed hk
+    · exact p4 hf (by intro ⟨a, b⟩; simp [a, b] at hni)
+  refine ⟨_, p3', p5, ?_⟩
+  rw [Lemmas.QuicDissect.dissectLoop_cons _ _ _ _ _ _ _ _ hne]
+  simp only [hextract]
+  have hturn : handleTurn (params H Pc kl) (s, none) [emit L.aeadSeal ad kd q.x] =
+      ((stepPkt (params H Pc kl) s (emit L.aeadSeal ad kd q.x)).st, none) := by
+    unfold handleTurn
+    simp only [handleQuicPackets, p1]
+    congr 1
+    exact stampVer_id _ p3.inv.ver
+  rw [hturn]
+
+end HsDatagram
+
+section HsRun
+variable (maskFn : Dissect.MaskFn) (H : Crypto.Prims) (Pc : Cipher.Prims) (info : Nat → Pipeline.Info)
+
+def Trk.run (t : Trk) (qs : List PkH) : Trk := qs.foldl (fun t q => t.step q.x) t
+
+/-- the CRYPTO inputs of a packet list, in processing order -/
+def insOf (qs : List PkH) : List CryptoIn := qs.flatMap fun q => cryptoIns q.x
+
+def HsPks (L : SealLaws Pc) (dcid0 : Bytes) (sel : SuiteSel) (sh ch : Bytes) : Trk → List PkH → Prop
+  | _, [] => True
+  | t, q :: qs => HsPkOk maskFn H Pc L dcid0 sel sh ch t q ∧ HsPks L dcid0 sel sh ch (t.step q.x) qs
+
+def dgWire (L : SealLaws Pc) (dcid0 : Bytes) (sel : SuiteSel) (sh ch : Bytes) (d : DgH) : Bytes :=
+  (d.pkts.map (pkWire H Pc L dcid0 sel sh ch)).flatten
+
+theorem hs_loop (hl : H.Lawful) (kl : List Keylog.Key) (L : SealLaws Pc) (dcid0 cr csel ch sh ca sa : Bytes)
+    (early : Option Bytes) (sel : SuiteSel) (hsel : selectSuite csel = some sel) (hkl : KeylogHas kl cr ch sh ca sa early)
+    (srv : Bool) (ts : Nat) (guessed : Bytes) (qs : List PkH) (hdir : ∀ q ∈ qs, q.x.srv = srv ∧ q.x.ts = ts)
+    (rest : List CryptoIn) (t : Trk) (s : St Tls)
+    (hst : HsSt H dcid0 sel ch sh ca sa t.keyed s t.tc t.ts t.cc t.sc t.core)
+    (hok : HsPks maskFn H Pc L dcid0 sel sh ch t qs) (htr : PTrace cr csel t.core (insOf qs ++ rest)) :
+    ∃ s', HsSt H dcid0 sel ch sh ca sa (t.run qs).keyed s' (t.run qs).tc (t.run qs).ts (t.run qs).cc (t.run qs).sc
+        (t.run qs).core ∧
+      PTrace cr csel (t.run qs).core rest ∧
+      (Dissect.dissectLoop maskFn (fun x : LoopSt => envOf x.1) (handleTurn (params H Pc kl)) srv guessed ts
+        (s, none) ((qs.map (pkWire H Pc L dcid0 sel sh ch)).flatten)).1 = (s', none) := by
+  induction qs generalizing t s with
+  | nil => exact ⟨s, hst, htr, by simp [Lemmas.QuicDissect.dissectLoop_nil]⟩
+  | cons q qs ih =>
+    obtain ⟨hq, hqs⟩ := hok
+    obtain ⟨hsv, hts⟩ := hdir q (List.mem_cons_self ..)
+    have htr' : PTrace cr csel t.core (cryptoIns q.x ++ (insOf qs ++ rest)) := by
+      simpa [insOf, List.flatMap_cons, List.append_assoc] using htr
+    obtain ⟨s1, a1, a2, a3⟩ := hs_turn maskFn H Pc hl kl L dcid0 cr csel ch sh ca sa early sel hsel hkl t q hq _ s hst htr'
+      guessed ((qs.map (pkWire H Pc L dcid0 sel sh ch)).flatten)
+    rw [hsv, hts] at a3
+    obtain ⟨s2, b1, b2, b3⟩ := ih (fun q' hq' => hdir q' (List.mem_cons_of_mem _ hq')) (t.step q.x) s1 a1 hqs a2
+    refine ⟨s2, b1, b2, ?_⟩
+    simp only [List.map_cons, List.flatten_cons]
+    rw [a3, b3]
+
+/-- the session states a handshake datagram may find: fresh (`QuicSession.__init__` just ran; then the datagram is the
+    client's first Initial and `dcid` its Destination Connection ID), or in the handshake -/
+theorem feedPre_fresh (kl : List Keylog.Key) (h32 : H.sha256.outLen = 32) (dcid0 : Bytes) (sel : SuiteSel)
+    (ch sh ca sa : Bytes) :
+    HsSt H dcid0 sel ch sh ca sa false (feedPre H (params H Pc kl) (St.init (params H Pc [])) dcid0 .v1) {} {} [] [] {} := by
+  have hd : devInitial H .v1 dcid0 = some
+      { clientKey := (quicInitialClientKeys H.sha256 dcid0).key, clientIv := (quicInitialClientKeys H.sha256 dcid0).iv,
+        clientHp := (quicInitialClientKeys H.sha256 dcid0).hp, serverKey := (quicInitialServerKeys H.sha256 dcid0).key,
+        serverIv := (quicInitialServerKeys H.sha256 dcid0).iv, serverHp := (quicInitialServerKeys H.sha256 dcid0).hp } := by
+    unfold devInitial
+    simp only [qver]
+    rw [C15.quic_initial_eq_rfc _ h32]
+  have hp : (params H Pc kl).devInitialKeys .v1 dcid0 = (devInitial H .v1 dcid0).map
+      fun k => (⟨k.serverKey, k.serverIv⟩, ⟨k.clientKey, k.clientIv⟩) := rfl
+  refine ⟨⟨?_, ?_, ?_, ?_, ?_, ?_, ?_, ?_, ?_, ?_⟩, ?_, ?_, ?_, ?_, ?_, ?_, by intro h; cases h⟩
+  all_goals simp [feedPre, handlePacketPre, latchVersion, St.init, setInitialDecryptor, hp, hd, stampVer,
+    HpKeys.withInitial, params, coreOf, initDec]
+
+theorem feedPre_hs (P : Params Tls) (dcid0 dcid : Bytes) (s : St Tls) (hi : HsInv H dcid0 s) :
+    feedPre H P s dcid .v1 = s := by
+  have hl : latchVersion s .v1 = s := by unfold latchVersion; rw [hi.version]; simp
+  have hn : s.decInitial.isNone = false := by rw [hi.init]; rfl
+  unfold feedPre handlePacketPre
+  simp only [hl, hn, Bool.false_eq_true, if_false]
+  exact stampVer_id s hi.ver
+
+end HsRun
+
+section HsMachine
+variable (maskFn : Dissect.MaskFn) (H : Crypto.Prims) (Pc : Cipher.Prims) (info : Nat → Pipeline.Info)
+
+theorem packetIsServer_of_dcidOk (s : St Tls) (cc sc : List Bytes) (hcc : s.clientCids = cc) (hsc : s.serverCids = sc)
+    (srv : Bool) (dcid : Bytes) (hcid : DcidOk cc sc srv dcid) : packetIsServer s (!srv) dcid = srv := by
+  unfold packetIsServer
+  unfold DcidOk at hcid
+  rw [hcc, hsc]
+  have hl : dcid.length > 0 ↔ dcid ≠ [] := List.length_pos_iff
+  cases hs : srv <;> simp only [hs, Bool.false_eq_true, if_false, if_true] at hcid ⊢
+  · by_cases h1 : dcid.length > 0 ∧ dcid ∈ sc ∧ dcid ∉ cc
+    · simp [h1]
+    · have h2 : ¬ (dcid.length > 0 ∧ dcid ∈ cc ∧ dcid ∉ sc) := by rw [hl]; exact hcid
+      simp [h1, h2]
+  · have h1 : ¬ (dcid.length > 0 ∧ dcid ∈ sc ∧ dcid ∉ cc) := by rw [hl]; exact hcid
+    by_cases h2 : dcid.length > 0 ∧ dcid ∈ cc ∧ dcid ∉ sc <;> simp [h1, h2]
+
+/-- the routing DCID the main loop reads off a long-header datagram: that of its first packet -/
+def dgDcid (d : DgH) : Bytes :=
+  match d.pkts with
+  | q :: _ => q.x.dcid
+  | [] => []
+
+structure CarriesH (c : QConn) (w : DgH → Bytes) (p : MainLoop.Pkt) (d : DgH) : Prop where
+  payload : p.payload = w d
+  ts : (info p.tag).ts = d.ts
+  dir : (p.src == c.client) = !d.srv
+
+/-- one handshake datagram: its packets share direction and capture time, its DCID is not one only its sender issued, its
+    packets are `HsPkOk` one after the other -/
+def HsDgOk (L : SealLaws Pc) (dcid0 : Bytes) (sel : SuiteSel) (sh ch : Bytes) (t : Trk) (d : DgH) : Prop :=
+  (∀ q ∈ d.pkts, q.x.srv = d.srv ∧ q.x.ts = d.ts) ∧ DcidOk t.cc t.sc d.srv (dgDcid d) ∧
+  HsPks maskFn H Pc L dcid0 sel sh ch t d.pkts
+
+theorem hs_feed_step (hl : H.Lawful) (kl : List Keylog.Key) (L : SealLaws Pc) (dcid0 cr csel ch sh ca sa : Bytes)
+    (early : Option Bytes) (sel : SuiteSel) (hsel : selectSuite csel = some sel) (hkl : KeylogHas kl cr ch sh ca sa early)
+    (t : Trk) (d : DgH) (hok : HsDgOk maskFn H Pc L dcid0 sel sh ch t d) (rest : List CryptoIn)
+    (c : QConn) (hr : c.raised = none)
+    (hpre : HsSt H dcid0 sel ch sh ca sa t.keyed (feedPre H (params H Pc kl) c.st (dgDcid d) .v1) t.tc t.ts t.cc t.sc t.core)
+    (htr : PTrace cr csel t.core (insOf d.pkts ++ rest)) (p : MainLoop.Pkt)
+    (hcar : CarriesH info c (dgWire H Pc L dcid0 sel sh ch) p d) :
+    let c' := (quicMachine maskFn H Pc info).feed c kl p (dgDcid d) .v1
+    c'.raised = none ∧
+    HsSt H dcid0 sel ch sh ca sa (t.run d.pkts).keyed c'.st (t.run d.pkts).tc (t.run d.pkts).ts (t.run d.pkts).cc
+      (t.run d.pkts).sc (t.run d.pkts).core ∧
+    PTrace cr csel (t.run d.pkts).core rest ∧
+    c'.opts = c.opts ∧ c'.server = c.server ∧ c'.client = c.client ∧ c'.serverMac = c.serverMac ∧
+    c'.clientMac = c.clientMac ∧ c'.ipv6 = c.ipv6 := by
+  obtain ⟨hdir, hcid, hpks⟩ := hok
+  obtain ⟨w1, w2, w3⟩ := hcar
+  have hsrv : packetIsServer (feedPre H (params H Pc kl) c.st (dgDcid d) .v1) (!d.srv) (dgDcid d) = d.srv :=
+    packetIsServer_of_dcidOk _ _ _ hpre.cc hpre.sc _ _ hcid
+  obtain ⟨s', a1, a2, a3⟩ := hs_loop maskFn H Pc hl kl L dcid0 cr csel ch sh ca sa early sel hsel hkl d.srv d.ts (dgDcid d)
+    d.pkts hdir rest t _ hpre hpks htr
+  have hfeed : (quicMachine maskFn H Pc info).feed c kl p (dgDcid d) .v1 = { c with st := s', raised := none } := by
+    simp only [quicMachine, hr, sver]
+    rw [w1, w2, w3]
+    unfold handleDatagram
+    simp only [hsrv]
+    unfold dgWire
+    rw [a3]
+  intro c'
+  have : c' = { c with st := s', raised := none } := hfeed
+  rw [this]
+  exact ⟨rfl, a1, a2, rfl, rfl, rfl, rfl, rfl, rfl⟩
+
+/-- the handshake datagrams, each against the bookkeeping after the previous ones -/
+def HsDgs (L : SealLaws Pc) (dcid0 : Bytes) (sel : SuiteSel) (sh ch : Bytes) : Trk → List DgH → Prop
+  | _, [] => True
+  | t, d :: ds => HsDgOk maskFn H Pc L dcid0 sel sh ch t d ∧ HsDgs L dcid0 sel sh ch (t.run d.pkts) ds
+
+def Trk.runDgs (t : Trk) (ds : List DgH) : Trk := ds.foldl (fun t d => t.run d.pkts) t
+
+def allIns (ds : List DgH) : List CryptoIn := ds.flatMap fun d => insOf d.pkts
+
+/-- the main loop hands over the handshake datagrams (long headers: routing DCID of the first packet, version 1), each with
+    the key log as it is then -/
+def hsFeedAll (QM : MainLoop.QuicMachine Keylog.Key QConn Pipeline.OutPkt) (c : QConn) :
+    List (List Keylog.Key × MainLoop.Pkt × DgH) → QConn
+  | [] => c
+  | (kl, p, d) :: rest => hsFeedAll QM (QM.feed c kl p (dgDcid d) .v1) rest
+
+theorem hs_feed_rest (hl : H.Lawful) (L : SealLaws Pc) (dcid0 cr csel ch sh ca sa : Bytes)
+    (early : Option Bytes) (sel : SuiteSel) (hsel : selectSuite csel = some sel)
+    (items : List (List Keylog.Key × MainLoop.Pkt × DgH)) (hkl : ∀ x ∈ items, KeylogHas x.1 cr ch sh ca sa early)
+    (t : Trk) (c : QConn) (hr : c.raised = none)
+    (hst : HsSt H dcid0 sel ch sh ca sa t.keyed c.st t.tc t.ts t.cc t.sc t.core)
+    (hok : HsDgs maskFn H Pc L dcid0 sel sh ch t (items.map (·.2.2)))
+    (htr : PTrace cr csel t.core (allIns (items.map (·.2.2))))
+    (hcar : ∀ x ∈ items, CarriesH info c (dgWire H Pc L dcid0 sel sh ch) x.2.1 x.2.2) :
+    let c' := hsFeedAll (quicMachine maskFn H Pc info) c items
+    let t' := t.runDgs (items.map (·.2.2))
+    c'.raised = none ∧ HsSt H dcid0 sel ch sh ca sa t'.keyed c'.st t'.tc t'.ts t'.cc t'.sc t'.core ∧
+    c'.opts = c.opts ∧ c'.server = c.server ∧ c'.client = c.client ∧ c'.serverMac = c.serverMac ∧
+    c'.clientMac = c.clientMac ∧ c'.ipv6 = c.ipv6 := by
+  induction items generalizing t c with
+  | nil => exact ⟨hr, hst, rfl, rfl, rfl, rfl, rfl, rfl⟩
+  | cons it rest ih =>
+    obtain ⟨kl, p, d⟩ := it
+    obtain ⟨hd, hds⟩ := hok
+    have htr' : PTrace cr csel t.core (insOf d.pkts ++ allIns (rest.map (·.2.2))) := by
+      simpa [allIns, List.flatMap_cons] using htr
+    have hpre : feedPre H (params H Pc kl) c.st (dgDcid d) .v1 = c.st := feedPre_hs H _ dcid0 _ c.st hst.inv
+    obtain ⟨b1, b2, b3, b4, b5, b6, b7, b8, b9⟩ := hs_feed_step maskFn H Pc info hl kl L dcid0 cr csel ch sh ca sa early sel
+      hsel (hkl (kl, p, d) (List.mem_cons_self ..)) t d hd _ c hr (by rw [hpre]; exact hst) htr' p
+      (hcar (kl, p, d) (List.mem_cons_self ..))
+    obtain ⟨i1, i2, i3, i4, i5, i6, i7, i8⟩ := ih (fun x hx => hkl x (List.mem_cons_of_mem _ hx)) (t.run d.pkts) _ b1 b2 hds b3
+      (fun x hx => by
+        obtain ⟨u1, u2, u3⟩ := hcar x (List.mem_cons_of_mem _ hx)
+        exact ⟨u1, u2, by rw [b6]; exact u3⟩)
+    exact ⟨i1, i2, i3.trans b4, i4.trans b5, i5.trans b6, i6.trans b7, i7.trans b8, i8.trans b9⟩
+
+end HsMachine
+
+section HsFinal
+variable (maskFn : Dissect.MaskFn) (H : Crypto.Prims) (Pc : Cipher.Prims) (info : Nat → Pipeline.Info)
+
+/-- a keyed handshake state IS the state the 1-RTT theorem starts from -/
+theorem est_of_hsSt (kl : List Keylog.Key) (dcid0 : Bytes) (sel : SuiteSel) (ch sh ca sa : Bytes) (s : St Tls)
+    (tc ts : PnTab) (cc sc : List Bytes) (core : Tls)
+    (h : HsSt H dcid0 sel ch sh ca sa true s tc ts cc sc core) :
+    Est H Pc kl sel .v1 (rfcGen (hashOf H sel.hash) sel.keyLen sa ca 0)
+      (quicHp (hashOf H sel.hash) ca sel.keyLen) (quicHp (hashOf H sel.hash) sa sel.keyLen) (chachaOf core)
+      s 0 0 tc.app ts.app cc sc := by
+  have k := h.keyed rfl
+  refine ⟨⟨⟨k.suite, h.inv.version, ?_, h.inv.ec, h.inv.es, h.inv.lpc, h.inv.lps⟩, h.nd, ?_, ?_⟩, ?_, k.hpCA, k.hpSA, ?_,
+    h.inv.ver, h.cc, h.sc⟩
+  · rw [k.app]; rfl
+  · rw [h.pc]
+  · rw [h.ps]
+  · rw [h.inv.init]; rfl
+  · rw [← h.core]; rfl
+
+/-- a fresh `QuicSession` object, as `quicMachine.new` returns it -/
+def Fresh (c : QConn) : Prop := c.st = St.init (params H Pc []) ∧ c.raised = none
+
+theorem new_fresh (o : MainLoop.Opts) (p : MainLoop.Pkt) : Fresh H Pc ((quicMachine maskFn H Pc info).new o p) :=
+  ⟨rfl, rfl⟩
+
+def trk0 : Trk := ⟨false, {}, {}, [], [], {}⟩
+
+/-- **The handshake establishes the 1-RTT state.** From a fresh session through every handshake history of the spec
+    (`HsDgs`: datagrams of coalesced Initial / Handshake packets of both directions, packet numbers in the RFC window per
+    space and direction, RFC 9000 §12.4 frames, CIDs of any lengths incl. empty ones, Handshake packets only after the
+    ServerHello), with the connection's key-log lines present at every `handle_packet` call and the LOCAL parser
+    hypothesis `PTrace` on this history's CRYPTO inputs: nothing raises, nothing is exported without `-a`, and — if the
+    keys were installed on the way (`keyed`: some server CRYPTO frame completed a hello) — the state satisfies `Est` with
+    the RFC generation-0 keys, "quic hp" keys and the CIDs learned. -/
+theorem quic_handshake_establishes (hl : H.Lawful) (h32 : H.sha256.outLen = 32) (L : SealLaws Pc)
+    (cr csel ch sh ca sa : Bytes) (early : Option Bytes) (sel : SuiteSel) (hsel : selectSuite csel = some sel)
+    (kl0 : List Keylog.Key) (p0 : MainLoop.Pkt) (d0 : DgH) (items : List (List Keylog.Key × MainLoop.Pkt × DgH))
+    (hkl : ∀ x ∈ (kl0, p0, d0) :: items, KeylogHas x.1 cr ch sh ca sa early)
+    (c : QConn) (hc : Fresh H Pc c)
+    (hok : HsDgs maskFn H Pc L (dgDcid d0) sel sh ch trk0 (d0 :: items.map (·.2.2)))
+    (htr : PTrace cr csel {} (allIns (d0 :: items.map (·.2.2))))
+    (hcar : ∀ x ∈ (kl0, p0, d0) :: items, CarriesH info c (dgWire H Pc L (dgDcid d0) sel sh ch) x.2.1 x.2.2)
+    (hkeyed : (trk0.runDgs (d0 :: items.map (·.2.2))).keyed = true) (kl : List Keylog.Key) :
+    let c' := hsFeedAll (quicMachine maskFn H Pc info) c ((kl0, p0, d0) :: items)
+    let t' := trk0.runDgs (d0 :: items.map (·.2.2))
+    c'.raised = none ∧
+    Est H Pc kl sel .v1 (rfcGen (hashOf H sel.hash) sel.keyLen sa ca 0)
+      (quicHp (hashOf H sel.hash) ca sel.keyLen) (quicHp (hashOf H sel.hash) sa sel.keyLen) (chachaOf t'.core)
+      c'.st 0 0 t'.tc.app t'.ts.app t'.cc t'.sc ∧
+    (∀ o ∈ c'.st.out, UdpOut.exported false (frameOf o) = none) ∧
+    c'.opts = c.opts ∧ c'.server = c.server ∧ c'.client = c.client ∧ c'.serverMac = c.serverMac ∧
+    c'.clientMac = c.clientMac ∧ c'.ipv6 = c.ipv6 := by
+  obtain ⟨hfresh, hr⟩ := hc
+  obtain ⟨hd0, hds⟩ := hok
+  have htr' : PTrace cr csel trk0.core (insOf d0.pkts ++ allIns (items.map (·.2.2))) := by
+    simpa [allIns, List.flatMap_cons, trk0] using htr
+  have hpre : HsSt H (dgDcid d0) sel ch sh ca sa trk0.keyed (feedPre H (params H Pc kl0) c.st (dgDcid d0) .v1)
+      trk0.tc trk0.ts trk0.cc trk0.sc trk0.core := by
+    rw [hfresh]; exact feedPre_fresh H Pc kl0 h32 (dgDcid d0) sel ch sh ca sa
+  obtain ⟨b1, b2, b3, b4, b5, b6, b7, b8, b9⟩ := hs_feed_step maskFn H Pc info hl kl0 L (dgDcid d0) cr csel ch sh ca sa early
+    sel hsel (hkl (kl0, p0, d0) (List.mem_cons_self ..)) trk0 d0 hd0 _ c hr hpre htr' p0
+    (hcar (kl0, p0, d0) (List.mem_cons_self ..))
+  obtain ⟨i1, i2, i3, i4, i5, i6, i7, i8⟩ := hs_feed_rest maskFn H Pc info hl L (dgDcid d0) cr csel ch sh ca sa early sel hsel
+    items (fun x hx => hkl x (List.mem_cons_of_mem _ hx)) (trk0.run d0.pkts) _ b1 b2 hds b3
+    (fun x hx => by
+      obtain ⟨u1, u2, u3⟩ := hcar x (List.mem_cons_of_mem _ hx)
+      exact ⟨u1, u2, by rw [b6]; exact u3⟩)
+  intro c' t'
+  have hc' : c' = hsFeedAll (quicMachine maskFn H Pc info)
+      ((quicMachine maskFn H Pc info).feed c kl0 p0 (dgDcid d0) .v1) items := rfl
+  have ht' : t' = (trk0.run d0.pkts).runDgs (items.map (·.2.2)) := rfl
+  rw [hc', ht']
+  rw [show (trk0.runDgs (d0 :: items.map (·.2.2))) = (trk0.run d0.pkts).runDgs (items.map (·.2.2)) from rfl] at hkeyed
+  rw [hkeyed] at i2
+  exact ⟨i1, est_of_hsSt H Pc kl _ sel ch sh ca sa _ _ _ _ _ _ i2, i2.inv.out, i3.trans b4, i4.trans b5, i5.trans b6,
+    i6.trans b7, i7.trans b8, i8.trans b9⟩
+
+/-- **C02 for a whole connection**: `quic_handshake_establishes`, then `quic_one_rtt_connection_exact`. From a fresh session,
+    for every handshake history of the spec followed by every conformant 1-RTT history (`Send1`, starting from the
+    bookkeeping the handshake left): nothing raises, and the export without `-a` is exactly one UDP frame per 1-RTT datagram
+    that carried a STREAM frame, in capture order, with that datagram's STREAM data, capture time and direction.
+    Hypotheses beyond the RFCs: the key-log lines present at every handshake `handle_packet` call; the LOCAL parser
+    hypothesis `PTrace` for the handshake's CRYPTO inputs; no CRYPTO frames in 1-RTT packets. -/
+theorem quic_connection_exact (hl : H.Lawful) (h32 : H.sha256.outLen = 32) (L : SealLaws Pc)
+    (cr csel ch sh ca sa : Bytes) (early : Option Bytes) (sel : SuiteSel) (hsel : selectSuite csel = some sel)
+    (ho : (hashOf H sel.hash).outLen < 65536)
+    (hsa : sa.length = (hashOf H sel.hash).outLen) (hca : ca.length = (hashOf H sel.hash).outLen)
+    (kl0 : List Keylog.Key) (p0 : MainLoop.Pkt) (d0 : DgH) (items : List (List Keylog.Key × MainLoop.Pkt × DgH))
+    (hkl : ∀ x ∈ (kl0, p0, d0) :: items, KeylogHas x.1 cr ch sh ca sa early)
+    (c : QConn) (hc : Fresh H Pc c)
+    (hok : HsDgs maskFn H Pc L (dgDcid d0) sel sh ch trk0 (d0 :: items.map (·.2.2)))
+    (htr : PTrace cr csel {} (allIns (d0 :: items.map (·.2.2))))
+    (hcar : ∀ x ∈ (kl0, p0, d0) :: items, CarriesH info c (dgWire H Pc L (dgDcid d0) sel sh ch) x.2.1 x.2.2)
+    (hkeyed : (trk0.runDgs (d0 :: items.map (·.2.2))).keyed = true)
+    (items1 : List (List Keylog.Key × MainLoop.Pkt × Dg1))
+    (hcar1 : ∀ x ∈ items1, Carries info c
+      (wireOf H Pc L sel .v1 (rfcGen (hashOf H sel.hash) sel.keyLen sa ca 0)) x.2.1 x.2.2)
+    (hsend : Send1 maskFn H Pc L sel .v1 (rfcGen (hashOf H sel.hash) sel.keyLen sa ca 0)
+      (quicHp (hashOf H sel.hash) ca sel.keyLen) (quicHp (hashOf H sel.hash) sa sel.keyLen)
+      (chachaOf (trk0.runDgs (d0 :: items.map (·.2.2))).core) 0 0
+      (trk0.runDgs (d0 :: items.map (·.2.2))).tc.app (trk0.runDgs (d0 :: items.map (·.2.2))).ts.app
+      (trk0.runDgs (d0 :: items.map (·.2.2))).cc (trk0.runDgs (d0 :: items.map (·.2.2))).sc (items1.map (·.2.2)))
+    (htimes : ((items1.map (·.2.2)).map fun d => (d.x.ts, d.x.srv)).Pairwise (· ≠ ·)) :
+    let QM := quicMachine maskFn H Pc info
+    let c1 := hsFeedAll QM c ((kl0, p0, d0) :: items)
+    (feedAll QM c1 items1).raised = none ∧
+    QM.out false (feedAll QM c1 items1) = expectedOut c (items1.map (·.2.2)) := by
+  intro QM c1
+  obtain ⟨e1, e2, e3, e4, e5, e6, e7, e8, e9⟩ := quic_handshake_establishes maskFn H Pc info hl h32 L cr csel ch sh ca sa early
+    sel hsel kl0 p0 d0 items hkl c hc hok htr hcar hkeyed []
+  have hk := keysWf_rfc H hl Pc [] csel sel hsel .v1 ho sa ca hsa hca
+  obtain ⟨r1, r2⟩ := quic_one_rtt_connection_exact maskFn H Pc info [] L sel .v1 _ _ _ _ hk items1 c1 0 0 _ _ _ _ e1 e2 e3
+    (fun x hx => by
+      obtain ⟨u1, u2, u3⟩ := hcar1 x hx
+      exact ⟨u1, u2, by rw [show c1.client = c.client from e6]; exact u3⟩)
+    hsend htimes
+  refine ⟨r1, ?_⟩
+  rw [r2]
+  unfold expectedOut
+  rw [addressed_congr c c1 e4 e5 e6 e7 e8 e9]
+
+end HsFinal
+/-! ### the local parser hypothesis is satisfiable: a conformant handshake's messages through the concrete `QuicTlsSession` -/
+
+namespace ExHs
+open TLX.Props.C02Pipeline
+def crB : Bytes := List.replicate 32 0x5a
+/-- ClientHello: legacy_version, random, empty session id, one suite 0x1301, null compression, empty extension list -/
+def chMsg : Bytes := [1, 0, 0, 43, 3, 3] ++ crB ++ [0, 0, 2, 0x13, 0x01, 1, 0, 0, 0]
+/-- ServerHello: random, empty session-id echo, suite 0x1301, empty extension list -/
+def shMsg : Bytes := [2, 0, 0, 40, 3, 3] ++ List.replicate 32 0x77 ++ [0, 0x13, 0x01, 0, 0, 0]
+def eeFin : Bytes := [8, 0, 0, 2, 0, 0, 20, 0, 0, 1, 0xaa]
+def finMsg : Bytes := [20, 0, 0, 1, 0xbb]
+
+def ins : List CryptoIn :=
+  [⟨false, .initial, 0, 47, chMsg⟩, ⟨true, .initial, 0, 44, shMsg⟩, ⟨true, .handshake, 0, 11, eeFin⟩,
+   ⟨false, .handshake, 0, 5, finMsg⟩]
+
+/-- the ClientHello alone: no raise -/
+theorem u1 : (tlsUpdate {} ⟨false, .initial, 0, 47, chMsg⟩).2 = none := by
+  unfold tlsUpdate
+  simp only [ptOf]
+  unfold CryptoStream.update CryptoStream.handleBuffer
+  simp only [CryptoStream.handleBufferGo, Lemmas.CryptoStream.msgLoop_eq_len]
+  simp [CryptoStream.State.set, CryptoStream.State.init, CryptoStream.absorb, CryptoStream.sortByOffset,
+    CryptoStream.insertSorted, CryptoStream.pass, CryptoStream.removeFrame, Lemmas.CryptoStream.msgLoopF, Bytes.beNat,
+    Bytes.slice, chMsg, crB, recordRaises, TlsMsgs.handleRecord, TlsMsgs.handleClientHello, TlsMsgs.chBody,
+    TlsMsgs.extsThenNewData, TlsMsgs.getExtensions, parseExts_nil, TlsMsgs.applyExts]
+
+/-- `PTrace` for ClientHello (client Initial), ServerHello (server Initial), EncryptedExtensions ‖ Finished (server Handshake),
+    Finished (client Handshake): by evaluation of `CryptoStream` + `TlsMsgs` -/
+theorem ptrace_ex : PTrace crB [0x13, 0x01] {} ins := by
+  simp only [ins, PTrace]
+  unfold tlsUpdate
+  simp only [ptOf, clearND]
+  unfold CryptoStream.update CryptoStream.handleBuffer
+  simp only [CryptoStream.handleBufferGo, Lemmas.CryptoStream.msgLoop_eq_len]
+  simp [CryptoStream.State.set, CryptoStream.State.init, CryptoStream.absorb, CryptoStream.sortByOffset,
+    CryptoStream.insertSorted, CryptoStream.pass, CryptoStream.removeFrame, Lemmas.CryptoStream.msgLoopF, Bytes.beNat,
+    Bytes.slice, chMsg, shMsg, eeFin, finMsg, crB, recordRaises, feedRecords, TlsMsgs.handleRecord,
+    TlsMsgs.handleClientHello, TlsMsgs.chBody, TlsMsgs.handleServerHello, TlsMsgs.handleEncryptedExtensions,
+    TlsMsgs.extsThenNewData, TlsMsgs.getExtensions, parseExts_nil, TlsMsgs.applyExts]
+
+/-- … and the ServerHello input fires (`new_data`): the keys get installed while the server Initial is handled -/
+theorem fired_ex : pfired (pfold {} [⟨false, .initial, 0, 47, chMsg⟩]) [⟨true, .initial, 0, 44, shMsg⟩] = true := by
+  simp only [pfired, pfold, List.foldl]
+  unfold tlsUpdate
+  simp only [ptOf, clearND]
+  unfold CryptoStream.update CryptoStream.handleBuffer
+  simp only [CryptoStream.handleBufferGo, Lemmas.CryptoStream.msgLoop_eq_len]
+  simp [CryptoStream.State.set, CryptoStream.State.init, CryptoStream.absorb, CryptoStream.sortByOffset,
+    CryptoStream.insertSorted, CryptoStream.pass, CryptoStream.removeFrame, Lemmas.CryptoStream.msgLoopF, Bytes.beNat,
+    Bytes.slice, chMsg, shMsg, crB, recordRaises, feedRecords, TlsMsgs.handleRecord,
+    TlsMsgs.handleClientHello, TlsMsgs.chBody, TlsMsgs.handleServerHello,
+    TlsMsgs.extsThenNewData, TlsMsgs.getExtensions, parseExts_nil, TlsMsgs.applyExts]
+end ExHs
 end TLX.Props.C02Capstone
